@@ -28,6 +28,9 @@ type RunResult struct {
 	TraceHash  uint64
 	Trace      any // human-readable trace (written to samples and replay files)
 	Steps      int // logical time covered
+	// Soft are violations after which the run went on (the oracle could neutralise them): each is
+	// either a listed known finding (counted) or promoted to the run's violation.
+	Soft []*Violation
 	// OrderSensitive marks runs whose outcome may depend on Go map iteration order inside avfs.
 	OrderSensitive bool
 }
@@ -233,6 +236,14 @@ func RunWorker(cfg WorkerConfig) int {
 			}
 		}
 
+		for _, sv := range res.Soft {
+			if _, ok := known[sv.Prop+"|"+sv.Sig]; ok {
+				part.KnownHits[sv.Prop+"|"+sv.Sig]++
+			} else if res.Violation == nil {
+				res.Violation = sv
+			}
+		}
+
 		if res.Violation == nil {
 			continue
 		}
@@ -294,6 +305,8 @@ func RunWorker(cfg WorkerConfig) int {
 			}
 
 			r := runOnce(c)
+			promoteSoft(&r, known)
+
 			if r.Violation == nil || r.Violation.Prop != v.Prop || r.Violation.Class != v.Class {
 				return false
 			}
@@ -315,6 +328,7 @@ func RunWorker(cfg WorkerConfig) int {
 		if !tainted {
 			ctx.Shrink = true
 			r2 = runOnce(shrunk)
+			promoteSoft(&r2, known)
 			ctx.Shrink = false
 
 			if r2.Trace == nil {
@@ -688,6 +702,7 @@ func RunReplay(p Property, path, knownFile string) int {
 	for i := 0; i < attempts; i++ {
 		ctx := &Ctx{Tier: rp.Tier, Stats: map[string]int64{}, Known: known, Avoid: avoid, Shrink: true, Aux: map[string]any{}}
 		last = p.Run(ctx, ReplayTape(rp.Tape))
+		promoteSoft(&last, known)
 
 		for _, f := range ctx.Cleanups {
 			f()
@@ -776,8 +791,25 @@ func RunProbe(p Property, tapeFile, knownFile, tier string) int {
 		f()
 	}
 
+	promoteSoft(&r, known)
+
 	out, _ := json.Marshal(ProbeResult{Violation: r.Violation, Harness: r.Harness, Trace: r.Trace})
 	fmt.Println(string(out))
 
 	return 0
+}
+
+// promoteSoft makes the first soft violation that is not a known finding the violation of the run.
+func promoteSoft(r *RunResult, known map[string]string) {
+	if r.Violation != nil {
+		return
+	}
+
+	for _, sv := range r.Soft {
+		if _, ok := known[sv.Prop+"|"+sv.Sig]; !ok {
+			r.Violation = sv
+
+			return
+		}
+	}
 }
